@@ -457,3 +457,46 @@ pub(crate) fn c13_wrap_load_arc() {
 }
 
 
+
+// C09 – HybridStrategy::wait_for_readers with the REAL replacement closure (a full load on the
+// writer's own thread) while the writer's thread holds 8 guards (all fast slots taken) and a
+// foreign reader is parked inside its read-intent window on this storage; everything else frozen.
+// The writer must finish on its own: every loop exits within the unwinding bound, the reader is
+// helped exactly once with the value currently stored.
+// @harness name=solo_wait_for_readers_full_slots props=C09,C03 tier=quick flavour=nostd timeout=2400 fn=HybridStrategy::wait_for_readers+Debt::pay_all+helping::Slots::help+HybridStrategy::load
+#[cfg_attr(kani, kani::proof)]
+#[cfg_attr(kani, kani::stub(crate::debt::Node::traverse, crate::debt::verif_h::list_h::traverse_unrolled2))]
+#[cfg_attr(kani, kani::stub(crate::debt::LocalNode::with, crate::debt::verif_h::list_h::with_static))]
+#[cfg_attr(kani, kani::stub(crate::debt::Node::get, crate::debt::verif_h::list_h::node_get_unexpected))]
+#[cfg_attr(kani, kani::unwind(12))]
+pub(crate) fn solo_wait_for_readers_full_slots() {
+    fresh_ledger();
+    let mine = list_h::setup_thread_node();
+    let foreign = list_h::fresh_node();
+    let (old, now) = (0usize, 1usize);
+    let storage: AtomicPtr<Obj> = AtomicPtr::new(model::ptr(now) as *mut Obj);
+    let sa = &storage as *const _ as usize;
+    // my thread holds 8 guards on something else
+    let mut i = 0;
+    while i < 8 {
+        list_h::poke_slot(mine, i, 0x7770);
+        i += 1;
+    }
+    // the foreign reader has published its intent on this storage and stopped
+    list_h::poke_active_addr(foreign, sa);
+    list_h::poke_control(foreign, 8 | helping_h::C_GEN_TAG);
+    let c_now = model::cnt(now);
+    let st = strategy::<DefaultConfig>();
+    hooks_on();
+    unsafe { <HybridStrategy<DefaultConfig> as InnerStrategy<TP>>::wait_for_readers(&st, model::ptr(old), &storage) };
+    hooks_off();
+    let v = list_h::view(foreign);
+    vassert!(v.helping.control & helping_h::C_TAG_MASK == helping_h::C_REPL_TAG, "writer_helps_the_parked_reader");
+    let envelope = v.helping.control & !helping_h::C_TAG_MASK;
+    vassert!(helping_h::handover_cell(envelope).raw().load(SeqCst) == model::addr(now), "helper_hands_over_the_value_stored_now");
+    vassert!(model::cnt(now) == c_now + 1, "handed_over_value_carries_exactly_one_reference");
+    vassert!(model::steps() <= 96, "writer_with_full_slots_finishes_in_bounded_own_steps");
+    let m = list_h::view(mine);
+    vassert!(m.helping.control == helping_h::C_IDLE && m.slots[8] == NONE && m.active_writers == 0, "writer_leaves_its_own_node_idle");
+    vcover!("solo_wait_for_readers_full_slots_end");
+}
